@@ -47,22 +47,38 @@ def run(ctx, rep):
     # ---- C06.h: every chunker is parameterised by ITS repository's configuration --------------------------------
     rep.rule("C06.h", "the chunker's polynomial and size parameters come from the configuration passed in (no process-wide cache)")
     FC = prog.find1(r"^rustic_core::chunker::ChunkIter::<R>::from_config$")
-    news = [(bb, t) for bb, t in FC.calls() if "callee" in t and re.search(r"chunker::(rabin|fixed_size)::ChunkIter::<R>::new$", callee(t))]
+    # from_config itself or private per-variant helpers of the chunker module it calls (`rabin_from_config(config, ..)`)
+    OKSRC = r"configfile::ConfigFile::(poly|chunk_size|chunk_min_size|chunk_max_size|chunker)$|Rabin64::new_with_polynom$|ops::Try>::branch$"
+    fbodies = [FC]
+    helper_bad = []
+    for bb_, t_ in FC.calls():
+        if "callee" in t_ and callee(t_).startswith("rustic_core::chunker::") and callee(t_) in prog.bodies and not re.search(r"ChunkIter::<R>::new$", callee(t_)):
+            fbodies.append(prog.bodies[callee(t_)])
+            # what from_config hands to the helper also comes from its own parameters / the configuration
+            for a_ in t_["args"]:
+                if op_place(a_) is None:
+                    continue
+                for o in flow.origins(FC, op_place(a_)):
+                    if o.kind == "call" and not re.search(OKSRC, o.data[1]):
+                        helper_bad.append(strip_crate(o.data[1]))
+                    elif o.kind in ("static", "const", "item"):
+                        helper_bad.append(str(o.data)[:60])
+    news = [(B_, bb, t) for B_ in fbodies for bb, t in B_.calls() if "callee" in t and re.search(r"chunker::(rabin|fixed_size)::ChunkIter::<R>::new$", callee(t))]
     rep.require("C06.h", "constructors", len(news) == 2, where=FC.loc(), what="from_config builds the rabin and the fixed-size chunker")
-    for bb, t in news:
+    for B_, bb, t in news:
         kind = "rabin" if "rabin" in callee(t) else "fixed_size"
-        bad = []
+        bad = list(helper_bad)
         nparam = 0
         for ai, a in enumerate(t["args"]):
             if op_place(a) is None:
                 continue
-            orig = flow.origins(FC, op_place(a))
+            orig = flow.origins(B_, op_place(a))
             for o in orig:
                 if o.kind == "arg":
                     continue                      # reader / size_hint / config itself
                 if o.kind == "call":
                     c_ = o.data[1]
-                    if re.search(r"configfile::ConfigFile::(poly|chunk_size|chunk_min_size|chunk_max_size|chunker)$|Rabin64::new_with_polynom$|ops::Try>::branch$", c_):
+                    if re.search(OKSRC, c_):
                         nparam += 1
                         continue
                     bad.append(strip_crate(c_))
@@ -70,15 +86,15 @@ def run(ctx, rep):
                     bad.append(str(o.data)[:60])
         if kind == "rabin":
             # the Rabin64 tables are built here from config.poly()
-            rb = [(b2, t2) for b2, t2 in FC.calls() if "callee" in t2 and callee(t2).endswith("Rabin64::new_with_polynom")]
-            okp = len(rb) == 1 and any(c.endswith("ConfigFile::poly") for c in flow.backward_slice(FC, op_place(rb[0][1]["args"][1]))["calls"]) if rb else False
-            okp = okp and (rb[0][0] in flow.backward_slice(FC, op_place(t["args"][0]))["call_sites"] if rb and op_place(t["args"][0]) else False)
-            statics = [c for _, t2 in FC.calls() if "callee" in t2 for c in [callee(t2)] if re.search(r"OnceLock|OnceCell|LazyLock|Lazy<|lazy_static|thread_local|LocalKey", c)]
-            rep.check("C06.h", "rabin/polynomial-from-config", okp and not statics and not bad, where=where(FC, bb),
-                      what="the Rabin tables handed to the chunker are built in from_config from config.poly() of the configuration passed in" if okp and not statics and not bad else
-                           f"the Rabin fingerprint handed to the chunker does not (only) come from this configuration's polynomial (process-wide cache / other source: {sorted(set(statics + bad))[:3]}): a second repository in the same process is chunked with the first one's polynomial")
+            rb = [(b2, t2) for b2, t2 in B_.calls() if "callee" in t2 and callee(t2).endswith("Rabin64::new_with_polynom")]
+            okp = len(rb) == 1 and any(c.endswith("ConfigFile::poly") for c in flow.backward_slice(B_, op_place(rb[0][1]["args"][1]))["calls"]) if rb else False
+            okp = okp and (rb[0][0] in flow.backward_slice(B_, op_place(t["args"][0]))["call_sites"] if rb and op_place(t["args"][0]) else False)
+            statics = [c for F_ in fbodies for _, t2 in F_.calls() if "callee" in t2 for c in [callee(t2)] if re.search(r"OnceLock|OnceCell|LazyLock|Lazy<|lazy_static|thread_local|LocalKey", c)]
+            rep.check("C06.h", "rabin/polynomial-from-config", okp and not statics and not bad, where=where(B_, bb),
+                      what="the Rabin tables handed to the chunker are built from config.poly() of the configuration passed in" if okp and not statics and not bad else
+                           f"the Rabin fingerprint handed to the chunker does not (only) come from this configuration's polynomial (process-wide cache / other source: {sorted(set(statics + bad))[:3]}): a second repository with another polynomial is chunked with the first one's tables")
         else:
-            rep.check("C06.h", "fixed_size/size-from-config", not bad, where=where(FC, bb), what="the fixed chunk size comes from the configuration passed in")
+            rep.check("C06.h", "fixed_size/size-from-config", not bad, where=where(B_, bb), what="the fixed chunk size comes from the configuration passed in")
     from rules import arith, C13
     C13.global_state_rule(ctx, rep)
     arith.run_c06(ctx, rep)
@@ -136,6 +152,14 @@ def run(ctx, rep):
             e = flow.expr_of(NX, t["discr"])
             if "ErrorKind" in repr(e) and ("kind" in repr(e)):
                 has_err_kind = True
+            # `Ok(n) => if n == 0 {..}` form: a comparison of the count with 0
+            x_ = e
+            while x_[0] == "un" and x_[1] == "Not":
+                x_ = x_[2]
+            if x_[0] == "bin" and x_[1] in ("Eq", "Ne") and ("const", 0) in (x_[2], x_[3]):
+                o_ = x_[3] if x_[2] == ("const", 0) else x_[2]
+                if o_[0] == "proj" and isinstance(o_[1], tuple) and o_[1][0] == "call" and o_[1][1] == "std::io::Read::read" and list(o_[3])[:1] == ["Ok"]:
+                    has_ok0 = True
         kind_calls = [bb for bb, t in NX.calls() if "callee" in t and callee(t).endswith("std::io::Error::kind")]
         intr = any(re.search(r"Interrupted", repr(flow.expr_of(NX, a))) for bb, t in NX.calls() if "callee" in t and re.search(r"PartialEq", callee(t)) for a in t["args"]) or \
             any("Interrupted" in repr(s) for blk in NX.blocks for s in blk["s"] if s[0] == "=" and s[2][0] == "agg") or any("Interrupted" in repr(p.blocks) for p in NX.promoted)
@@ -195,7 +219,8 @@ def carry_rule(ctx, rep, R):
     rep.require(R, "bulk-read-site", len(takes) == 1, where=NX.loc(), what="the chunk's first min_size bytes are read through one take(limit)")
     if len(takes) == 1:
         tb, tt = takes[0]
-        lf, _ = flow.expr_mentions(flow.expr_of(NX, tt["args"][1], tb))
+        # crate-local helpers (`fn take_open_buf(&mut self, ..) -> usize { self.buf.len() - self.pos .. }`) are inlined
+        lf, _ = flow.expr_mentions(flow.inline_expr(prog, flow.expr_of(NX, tt["args"][1], tb)))
         sl = {"fields": lf}
         okc = {"min_size", "buf", "pos"} <= lf
         rep.check(R, "limit-accounts-for-carry", okc, where=where(NX, tb), what="take limit = min_size - (buf.len() - pos): carried bytes count towards the minimum chunk size" if okc else
